@@ -84,6 +84,17 @@ static nni_reap_list aio_reap_list = {
 static void nni_aio_expire_add(nni_aio *);
 static void nni_aio_expire_rm(nni_aio *);
 
+#ifdef NNG_VERIF
+// scalar state of an aio after a step, for the trace points below
+#define AIO_ST                                                            \
+	"\"stop\":%d,\"abort\":%d,\"expg\":%d,\"sleep\":%d,\"xok\":%d," \
+	"\"cfn\":%d,\"onx\":%d,\"res\":%d"
+#define AIO_ST_ARGS(a)                                                    \
+	(a)->a_stop, (a)->a_abort, (a)->a_expiring, (a)->a_sleep,         \
+	    (a)->a_expire_ok, (a)->a_cancel_fn != NULL,                   \
+	    nni_list_node_active(&(a)->a_expire_node), (int) (a)->a_result
+#endif
+
 void
 nni_aio_init(nni_aio *aio, nni_cb cb, void *arg)
 {
@@ -94,6 +105,8 @@ nni_aio_init(nni_aio *aio, nni_cb cb, void *arg)
 	aio->a_init    = true;
 	aio->a_expire_q =
 	    nni_aio_expire_q_list[nni_random() % nni_aio_expire_q_cnt];
+	NNI_VERIF_TRACE("aio", aio, "init", "\"task\":\"%lx\",\"hascb\":%d",
+	    (unsigned long) (uintptr_t) &aio->a_task, cb != NULL);
 }
 
 void
@@ -118,6 +131,8 @@ nni_aio_fini(nni_aio *aio)
 		arg               = aio->a_cancel_arg;
 		aio->a_cancel_fn  = NULL;
 		aio->a_cancel_arg = NULL;
+		NNI_VERIF_TRACE("aio", aio, "fini", "\"took\":%d," AIO_ST,
+		    fn != NULL, AIO_ST_ARGS(aio));
 		nni_mtx_unlock(&eq->eq_mtx);
 
 		if (fn != NULL) {
@@ -125,6 +140,7 @@ nni_aio_fini(nni_aio *aio)
 		}
 
 		nni_task_fini(&aio->a_task);
+		NNI_VERIF_TRACE("aio", aio, "fini_ret", NULL);
 	}
 }
 
@@ -207,6 +223,8 @@ nni_aio_stop(nni_aio *aio)
 		arg               = aio->a_cancel_arg;
 		aio->a_cancel_fn  = NULL;
 		aio->a_cancel_arg = NULL;
+		NNI_VERIF_TRACE("aio", aio, "stop", "\"took\":%d," AIO_ST,
+		    fn != NULL, AIO_ST_ARGS(aio));
 		nni_mtx_unlock(&eq->eq_mtx);
 
 		if (fn != NULL) {
@@ -214,6 +232,7 @@ nni_aio_stop(nni_aio *aio)
 		}
 
 		nni_aio_wait(aio);
+		NNI_VERIF_TRACE("aio", aio, "stop_ret", NULL);
 	}
 }
 
@@ -232,6 +251,8 @@ nni_aio_close(nni_aio *aio)
 		aio->a_cancel_fn  = NULL;
 		aio->a_cancel_arg = NULL;
 		aio->a_stop       = true;
+		NNI_VERIF_TRACE("aio", aio, "close", "\"took\":%d," AIO_ST,
+		    fn != NULL, AIO_ST_ARGS(aio));
 		nni_mtx_unlock(&eq->eq_mtx);
 
 		if (fn != NULL) {
@@ -323,6 +344,7 @@ nni_aio_wait(nni_aio *aio)
 {
 	if (aio != NULL && aio->a_expire_q != NULL) {
 		nni_task_wait(&aio->a_task);
+		NNI_VERIF_TRACE("aio", aio, "wait_ret", NULL);
 	}
 }
 
@@ -393,6 +415,8 @@ nni_aio_start(nni_aio *aio, nni_aio_cancel_fn cancel, void *data)
 		aio->a_count     = 0;
 		aio->a_result    = NNG_ESTOPPED;
 		aio->a_stopped   = true;
+		NNI_VERIF_TRACE("aio", aio, "start",
+		    "\"out\":\"stopped\"," AIO_ST, AIO_ST_ARGS(aio));
 		nni_mtx_unlock(&eq->eq_mtx);
 		nni_task_dispatch(&aio->a_task);
 		return (false);
@@ -403,6 +427,8 @@ nni_aio_start(nni_aio *aio, nni_aio_cancel_fn cancel, void *data)
 		aio->a_expire_ok = false;
 		aio->a_count     = 0;
 		NNI_ASSERT(aio->a_result != NNG_OK);
+		NNI_VERIF_TRACE("aio", aio, "start",
+		    "\"out\":\"aborted\"," AIO_ST, AIO_ST_ARGS(aio));
 		nni_mtx_unlock(&eq->eq_mtx);
 		nni_task_dispatch(&aio->a_task);
 		return (false);
@@ -413,6 +439,8 @@ nni_aio_start(nni_aio *aio, nni_aio_cancel_fn cancel, void *data)
 		aio->a_result    = aio->a_expire_ok ? NNG_OK : NNG_ETIMEDOUT;
 		aio->a_expire_ok = false;
 		aio->a_count     = 0;
+		NNI_VERIF_TRACE("aio", aio, "start",
+		    "\"out\":\"timedout\"," AIO_ST, AIO_ST_ARGS(aio));
 		nni_mtx_unlock(&eq->eq_mtx);
 		nni_task_dispatch(&aio->a_task);
 		return (false);
@@ -427,6 +455,12 @@ nni_aio_start(nni_aio *aio, nni_aio_cancel_fn cancel, void *data)
 	if ((aio->a_expire != NNI_TIME_NEVER) && (cancel != NULL)) {
 		nni_aio_expire_add(aio);
 	}
+	NNI_VERIF_TRACE("aio", aio, "start",
+	    "\"out\":\"ok\",\"left\":%ld," AIO_ST,
+	    aio->a_expire == NNI_TIME_NEVER
+	        ? -1L
+	        : (long) (aio->a_expire - nni_clock()),
+	    AIO_ST_ARGS(aio));
 	nni_mtx_unlock(&eq->eq_mtx);
 	return (true);
 }
@@ -453,6 +487,9 @@ nni_aio_abort(nni_aio *aio, nng_err rv)
 			aio->a_abort  = true;
 			aio->a_result = rv;
 		}
+		NNI_VERIF_TRACE("aio", aio, "abort",
+		    "\"rv\":%d,\"took\":%d," AIO_ST, (int) rv, fn != NULL,
+		    AIO_ST_ARGS(aio));
 		nni_mtx_unlock(&eq->eq_mtx);
 
 		// Stop any I/O at the provider level.
@@ -487,6 +524,9 @@ nni_aio_finish_impl(
 	aio->a_use_expire       = false;
 	skipped_cb              = aio->a_skipped_callback;
 	aio->a_skipped_callback = NULL;
+	NNI_VERIF_TRACE("aio", aio, "finish",
+	    "\"rv\":%d,\"skip\":%d,\"sync\":%d," AIO_ST, (int) rv,
+	    skipped_cb != NULL, sync, AIO_ST_ARGS(aio));
 	nni_mtx_unlock(&eq->eq_mtx);
 
 	if (skipped_cb != NULL) {
@@ -665,7 +705,11 @@ nni_aio_expire_loop(void *arg)
 				// Place a temporary hold on the aio.
 				// This prevents it from being destroyed.
 				aio->a_expiring = true;
-				aio             = nxt;
+				NNI_VERIF_TRACE("aio", aio, "xtake",
+				    "\"late\":%ld," AIO_ST,
+				    (long) (now - aio->a_expire),
+				    AIO_ST_ARGS(aio));
+				aio = nxt;
 				continue;
 			}
 			if (aio->a_expire < q->eq_next) {
@@ -700,6 +744,10 @@ nni_aio_expire_loop(void *arg)
 			// For the special case of sleeping, we don't need to
 			// drop the lock and call the cancel function, we are
 			// already doing it right here!
+			NNI_VERIF_TRACE("aio", aio, "xfire",
+			    "\"rv\":%d,\"took\":%d,\"slept\":%d," AIO_ST,
+			    (int) rv, cancel_fn != NULL, aio->a_sleep,
+			    AIO_ST_ARGS(aio));
 			if (aio->a_sleep) {
 				aio->a_result = rv;
 				aio->a_sleep  = false;
@@ -710,6 +758,8 @@ nni_aio_expire_loop(void *arg)
 				nni_mtx_lock(mtx);
 			}
 			aio->a_expiring = false;
+			NNI_VERIF_TRACE("aio", aio, "xdone", AIO_ST,
+			    AIO_ST_ARGS(aio));
 		}
 		nni_cv_wake(cv);
 	}
